@@ -184,3 +184,14 @@ CHECKS['C04'] = dict(
          'two live bodies, nothing new starts after abort()/kill request returned, teardown + plug tearDown after one abort, ABORTED when abort '
          'returned before finalization, callbacks exactly once, second abort stops teardown, nothing after finalization.',
     note='Harness-owned phase bodies; a body asked to die counts as abandoned (by design of the framework); bounds and gate filters are in the evidence.')
+
+CHECKS['C14'] = dict(
+    engine='sched', level='model_checking', design_ref='DESIGN.md#c14',
+    technique='device-script/merge enumeration x stateless schedule exploration of the host reader/writer threads with virtual time',
+    text='Outer: per-stream device scripts and all their order-preserving merges (2 streams: all 10 merges; 3 streams sampled every k-th merge '
+         'in thorough); inner: one reader thread per stream, optionally a writer on the same stream (maxdata 4, multi-chunk), explored under '
+         'the controlled scheduler at line granularity in the multiplexer (read_for_stream, _read_messages_until_true, '
+         '_handle_message_for_stream, enqueue_message, write/read) up to the deviation bound.  Oracle: bytes read are exactly the scripted '
+         'bytes in order (a prefix only if a timer was made to fire early), one OKAY per consumed device WRTE with the stream ids, host chunks '
+         '<= maxdata, never two un-acked host WRTEs, every call ends by its timeout, no deadlock / lost wake-up.',
+    note='The device queues its scripted messages without waiting for host acks; random schedules are outside this technique family.')
